@@ -6,7 +6,7 @@ import random
 import threading
 import time
 
-from vlib import srvharness as SH, srvtargets as ST, watch
+from vlib import srvharness as SH, srvtargets as ST, targets, watch
 
 PROPERTY = 'C11'
 LEVEL = 'fault_enumeration'
@@ -126,6 +126,8 @@ def judge_small(tree, results, viol, where):
     for t, y in results:
         got = SH.norm_outcome(y)
         ok, exp = SH.judge_outcome(tree, t, got)
+        if not ok and any(a == 'unpicklable' for _, a, _ in t[3]) and SH.has_process(tree) and "'PicklingError', ('vf-unpicklable',)" in repr(got):
+            continue  # failed alone at the first process boundary it met
         if not ok:
             viol.append({'mech': f'lifecycle/wrong-answer/{where}', 'msg': f'{where}: request {t[:3]} got {got!r}'[:400] + f', expected {exp!r}'[:300]})
             return False
@@ -284,6 +286,9 @@ def run_stop(case):
                 unroutable = s % 5 == 2 and SH.has_switch(tree)
                 if unroutable:
                     t = ('tok', cycle, s, (('SW', 'unroutable' if s == 2 else 'badindex', None),))  # the user's switch() fails for this input
+                elif s == 4:
+                    t = ('tok', cycle, s, (('_', 'unpicklable', targets.UNPICKLABLE),))  # cannot cross a process boundary
+                    unroutable = True
                 try:
                     y = server.call(t, timeout=8 if unroutable else 30, backpressure=False)
                 except BaseException as e:  # noqa: BLE001
@@ -327,6 +332,9 @@ def run_stop(case):
                 unroutable = wl == 'failures' and s % 5 == 2 and SH.has_switch(tree)
                 if unroutable:
                     plan = (('SW', 'unroutable' if s == 2 else 'badindex', None),)
+                elif wl == 'failures' and s == 4:
+                    plan = (('_', 'unpicklable', targets.UNPICKLABLE),)
+                    unroutable = True
                 t = ('tok', cycle, s, plan)
                 try:
                     y = await server.call(t, timeout=0.002 if wl == 'timeouts' else (8 if unroutable else 30), backpressure=False)
